@@ -49,6 +49,8 @@ TXNS = [
     # literal regex metacharacters in the description (substring functions are not regexes)
     {"description": "AMZN*MKTP (US) PARK+RIDE AMAZON.COM", "amount": 20.0, "date": D(2025, 3, 9), "field": {"memo": "a.b"}, "source": "Amex"},
     {"description": "AMZNNMKTP PARKKRIDE AMAZONXCOM", "amount": 20.0, "date": D(2025, 3, 9), "field": {"memo": "axb"}, "source": "Amex"},
+    # an amount less than half a cent away from a literal and from a supplemental row's amount (== is exact: 99.754 is not 99.75)
+    {"description": "Pen", "amount": 99.754, "date": D(2025, 1, 15), "field": {"memo": "ref 5"}, "source": "amex"},
 ]
 ORDERS = {"orders": [{"item": "Book", "amount": 99.75, "date": D(2025, 1, 15)}, {"item": "Pen", "amount": 0.25, "date": D(2025, 2, 1)},
                      {"item": "book club", "amount": 100.0, "date": D(2024, 12, 31)}],
